@@ -7,10 +7,14 @@
     R <state> <execStart> <execEnd> <now> | <obs>
     A <via h|a|e|x|c> <sticky> <notify> <persistent> <expiry> <now> | <obs>      (h = HTTP request, modelled as a)
     X <via h|a|e|c> <now> | <obs>
-    T <now> | <obs>
+    T <now> [<reader>] | <obs>                                           (<reader>: which getter looks first; the model
+                                                                          and the specification do not depend on it)
     P <now> <fired> | <obs>                                              timer pump; <fired> is an oracle input
     D <on> <now> | <obs>                                                 downtime in effect added / removed
+    U <on> <now> | <obs>                                                 object paused (SetAuthority(false)) / resumed
+    N <now> | <obs>                                                      NotificationTimerHandler with the reminder due
     <obs> = <acc> <ack> <expiry> <handled> <problem> <state> <stype> <attempt> <nSet> <nClr> <nAckN> <nProbN> <comments>
+            <raw> <sevAck> <suppProblem> <suppRecovery> <nRecN> <nReminders>
     <comments> = `-` or `entry:persistent:expire,...` (sorted)
   Output lines:
     MISMATCH line=<n> case=<k> impl=<...> model=<...>
@@ -46,6 +50,16 @@ structure DSt where
   pumpsFired : Nat := 0
   cmtExpired : Nat := 0        -- comments removed by the comment-expiry timer
   downtimeOps : Nat := 0
+  pauseOps : Nat := 0
+  pausedAcks : Nat := 0        -- acknowledgements accepted with notify on a paused object (no notification)
+  rawLagged : Nat := 0         -- looks at which the raw attribute was still set and the first reader found it expired
+  stashed : Nat := 0           -- results whose state notification went into the stash
+  stashedWhileAcked : Nat := 0
+  recoveryNotifs : Nat := 0
+  reminds : Nat := 0
+  reminders : Nat := 0         -- reminders attempted
+  remindersWithheldAck : Nat := 0  -- due reminders of a hard problem withheld only because of the acknowledgement
+  readerFirst : Nat := 0       -- T lines on which a reader other than GetHandled looked first
   handledDowntimeOnly : Nat := 0   -- looks at which the object is handled without being acknowledged
   httpOps : Nat := 0           -- acknowledge / remove operations that went through HttpHandler::ProcessRequest
   setEvents : Nat := 0
@@ -74,7 +88,7 @@ def showCmts (l : List Cmt) : String :=
   if l.isEmpty then "-" else ",".intercalate (l.map fun c => s!"{c.entry}:{showBool c.persistent}:{c.expire}")
 
 def showObs (o : Obs) : String :=
-  s!"{showBool o.acc},{o.ack.toNat},{o.expiry},{showBool o.handled},{showBool o.problem},{o.state.toNat},{o.stype.toNat},{o.attempt},{o.nSet},{o.nClr},{o.nAckN},{o.nProbN},{showCmts o.comments}"
+  s!"{showBool o.acc},{o.ack.toNat},{o.expiry},{showBool o.handled},{showBool o.problem},{o.state.toNat},{o.stype.toNat},{o.attempt},{o.nSet},{o.nClr},{o.nAckN},{o.nProbN},{showCmts o.comments},{o.raw.toNat},{showBool o.sevAck},{showBool o.suppP},{showBool o.suppR},{o.nRecN},{o.nRem}"
 
 def parseCmt (s : String) : Option Cmt :=
   match s.splitOn ":" with
@@ -90,7 +104,7 @@ def parseCmts (s : String) : Option (List Cmt) :=
 
 def parseObs (ws : List String) : Option Obs :=
   match ws with
-  | [acc, ack, ex, h, p, st, ty, at_, ns, nc, na, np, cm] => do
+  | [acc, ack, ex, h, p, st, ty, at_, ns, nc, na, np, cm, raw, sev, sp_, sr, nr, nm] => do
     let acc ← parseBool? acc
     let ack ← (parseNat? ack) >>= Ack.ofNat?
     let ex ← parseInt? ex
@@ -104,8 +118,15 @@ def parseObs (ws : List String) : Option Obs :=
     let na ← parseNat? na
     let np ← parseNat? np
     let cm ← parseCmts cm
+    let raw ← (parseNat? raw) >>= Ack.ofNat?
+    let sev ← parseBool? sev
+    let sp_ ← parseBool? sp_
+    let sr ← parseBool? sr
+    let nr ← parseNat? nr
+    let nm ← parseNat? nm
     pure { acc := acc, ack := ack, expiry := ex, handled := h, problem := p, state := st, stype := ty, attempt := at_,
-           nSet := ns, nClr := nc, nAckN := na, nProbN := np, comments := cm }
+           nSet := ns, nClr := nc, nAckN := na, nProbN := np, comments := cm,
+           raw := raw, sevAck := sev, suppP := sp_, suppR := sr, nRecN := nr, nRem := nm }
   | _ => none
 
 def parseVia (s : String) : Option Via :=
@@ -125,14 +146,24 @@ def parseOp (ws : List String) : Option Op :=
     pure (.ack (← parseVia via) (← parseBool? sticky) (← parseBool? notify) (← parseBool? pers) (← parseInt? ex) (← parseInt? nw))
   | ["X", via, nw] => do pure (.remove (← parseRVia via) (← parseInt? nw))
   | ["T", nw] => do pure (.advance (← parseInt? nw))
+  | ["T", nw, rd] => do
+    let _ ← parseNat? rd
+    pure (.advance (← parseInt? nw))
   | ["P", nw, f] => do pure (.pump (← parseInt? nw) (← parseBool? f))
   | ["D", on, nw] => do pure (.downtime (← parseBool? on) (← parseInt? nw))
+  | ["U", on, nw] => do pure (.pause (← parseBool? on) (← parseInt? nw))
+  | ["N", nw] => do pure (.remind (← parseInt? nw))
   | _ => none
 
 def bump (d : DSt) (op : Op) (io : Obs) : DSt := Id.run do
   let mut d := { d with steps := d.steps + 1, setEvents := d.setEvents + io.nSet, clearedEvents := d.clearedEvents + io.nClr,
                         ackNotifs := d.ackNotifs + io.nAckN, problemNotifs := d.problemNotifs + io.nProbN }
   if io.handled then d := { d with handledLooks := d.handledLooks + 1 }
+  if io.raw != .none && io.ack == .none then d := { d with rawLagged := d.rawLagged + 1 }
+  d := { d with recoveryNotifs := d.recoveryNotifs + io.nRecN }
+  if (io.suppP && !d.sp.suppP) || (io.suppR && !d.sp.suppR) then
+    d := { d with stashed := d.stashed + 1 }
+    if io.ack != .none then d := { d with stashedWhileAcked := d.stashedWhileAcked + 1 }
   let wasExpired := expired d.st op.now
   if wasExpired then d := { d with clrExpiry := d.clrExpiry + 1 }
   match op with
@@ -151,10 +182,11 @@ def bump (d : DSt) (op : Op) (io : Obs) : DSt := Id.run do
         d := { d with cmtRemoved := d.cmtRemoved + (before.length - io.comments.length),
                       cmtKeptLater := d.cmtKeptLater + (before.filter fun c => !c.persistent && decide (c.entry > ee)).length,
                       cmtKeptPersistent := d.cmtKeptPersistent + (before.filter (·.persistent)).length }
-  | .ack via _ _ _ ex nw =>
+  | .ack via _ notify _ ex nw =>
     d := { d with acks := d.acks + 1 }
     if io.acc then
       d := { d with ackAccepted := d.ackAccepted + 1, caseSet := true }
+      if notify && d.sp.paused then d := { d with pausedAcks := d.pausedAcks + 1 }
       if io.ack == .none then d := { d with ackGone := d.ackGone + 1 }
     else if preRefuse d.cfg d.st via ex nw then d := { d with refusedPre := d.refusedPre + 1 }
     else d := { d with refusedAcked := d.refusedAcked + 1 }
@@ -167,6 +199,10 @@ def bump (d : DSt) (op : Op) (io : Obs) : DSt := Id.run do
     if fired then
       d := { d with pumpsFired := d.pumpsFired + 1, cmtExpired := d.cmtExpired + (d.sp.comments.length - io.comments.length) }
   | .downtime _ _ => d := { d with downtimeOps := d.downtimeOps + 1 }
+  | .pause _ _ => d := { d with pauseOps := d.pauseOps + 1 }
+  | .remind _ =>
+    d := { d with reminds := d.reminds + 1, reminders := d.reminders + io.nRem }
+    if remindable d.cfg d.st && io.ack != .none then d := { d with remindersWithheldAck := d.remindersWithheldAck + 1 }
   if io.handled && io.ack == .none then d := { d with handledDowntimeOnly := d.handledDowntimeOnly + 1 }
   -- a case is non-trivial once an acknowledgement was set and later cleared; distinct by hash of its operations
   if d.caseSet && io.nClr > 0 && !d.caseCounted then
@@ -197,9 +233,15 @@ def handle (d : DSt) (n : Nat) (line : String) : IO DSt := do
     | some op, some io =>
       let p := step d.cfg d.st op
       let mo := obsOf d.cfg p
+      -- whether the expiry is evaluated already inside an operation or only by the first reader afterwards is not the
+      -- property's business: a raw attribute that is either still what it was or already what the readers see is taken
+      -- as the model's (the specification states what the raw attribute may be)
+      let mo := if io.raw == io.ack || io.raw == d.sp.ack then { mo with raw := io.raw } else mo
       let mut d := { d with caseHash := mixHash d.caseHash (hash (" ".intercalate pre)) }
       if (pre.head? == some "A" || pre.head? == some "X") && (pre.drop 1).head? == some "h" then
         d := { d with httpOps := d.httpOps + 1 }
+      if pre.head? == some "T" && pre.length == 3 && (pre.drop 2).head? != some "0" then
+        d := { d with readerFirst := d.readerFirst + 1 }
       d := bump d op io
       if mo != io then
         IO.println s!"MISMATCH line={n} case={d.caseNo} impl={showObs io} model={showObs mo}"
@@ -215,7 +257,8 @@ def handle (d : DSt) (n : Nat) (line : String) : IO DSt := do
       -- follow the model; on a mismatch resynchronise on the implementation so that one divergence is reported once
       let st' : MSt := if mo != io then
           { p.1 with base := { p.1.base with state := io.state, stype := io.stype, attempt := io.attempt },
-                     ack := io.ack, expiry := io.expiry, comments := io.comments }
+                     ack := io.ack, expiry := io.expiry, comments := io.comments,
+                     suppProblem := io.suppP, suppRecovery := io.suppR }
         else p.1
       return { d with st := st' }
     | _, _ => IO.println s!"BADLINE line={n}"; return d
@@ -224,4 +267,4 @@ def main : IO Unit := do
   let stdin ← IO.getStdin
   let d ← foldLines stdin handle ({} : DSt)
   let d := closeCase d
-  IO.println s!"STATS cases={d.caseNo} steps={d.steps} results={d.results} dropped={d.dropped} state_changes={d.stateChanges} acks={d.acks} ack_accepted={d.ackAccepted} refused_ok_or_expiry={d.refusedPre} refused_acked={d.refusedAcked} ack_gone_at_once={d.ackGone} removes={d.removes} advances={d.advances} pumps={d.pumps} pumps_fired={d.pumpsFired} comments_expired_by_timer={d.cmtExpired} downtime_ops={d.downtimeOps} handled_by_downtime_only={d.handledDowntimeOnly} http_ops={d.httpOps} set_events={d.setEvents} cleared_events={d.clearedEvents} clr_expiry={d.clrExpiry} clr_normal_change={d.clrNormal} clr_sticky_recovery={d.clrSticky} sticky_kept_on_change={d.stickyKept} clr_remove={d.clrRemove} ack_notifs={d.ackNotifs} problem_notifs={d.problemNotifs} handled_looks={d.handledLooks} comments_removed={d.cmtRemoved} comments_kept_later={d.cmtKeptLater} comments_kept_persistent={d.cmtKeptPersistent} nontrivial={d.nontrivial} mismatches={d.mismatches} specfails={d.specfails}"
+  IO.println s!"STATS cases={d.caseNo} steps={d.steps} results={d.results} dropped={d.dropped} state_changes={d.stateChanges} acks={d.acks} ack_accepted={d.ackAccepted} refused_ok_or_expiry={d.refusedPre} refused_acked={d.refusedAcked} ack_gone_at_once={d.ackGone} removes={d.removes} advances={d.advances} pumps={d.pumps} pumps_fired={d.pumpsFired} comments_expired_by_timer={d.cmtExpired} downtime_ops={d.downtimeOps} pause_ops={d.pauseOps} paused_acks_with_notify={d.pausedAcks} raw_lagged_looks={d.rawLagged} stashed={d.stashed} stashed_while_acked={d.stashedWhileAcked} recovery_notifs={d.recoveryNotifs} reader_first_looks={d.readerFirst} remind_ops={d.reminds} reminders={d.reminders} reminders_withheld_by_ack={d.remindersWithheldAck} handled_by_downtime_only={d.handledDowntimeOnly} http_ops={d.httpOps} set_events={d.setEvents} cleared_events={d.clearedEvents} clr_expiry={d.clrExpiry} clr_normal_change={d.clrNormal} clr_sticky_recovery={d.clrSticky} sticky_kept_on_change={d.stickyKept} clr_remove={d.clrRemove} ack_notifs={d.ackNotifs} problem_notifs={d.problemNotifs} handled_looks={d.handledLooks} comments_removed={d.cmtRemoved} comments_kept_later={d.cmtKeptLater} comments_kept_persistent={d.cmtKeptPersistent} nontrivial={d.nontrivial} mismatches={d.mismatches} specfails={d.specfails}"
